@@ -96,6 +96,15 @@ def run(ctx):
         for off in ((0, 2, 3) if thorough else (2,)):
             jobs.append(({'container': 'growing', 'capacity': str(cap)}, overlap_program(cap, off, 1), 'dfs', 6000 if thorough else 1500, ctx['seed'], ('--pb', '2')))
     do_search(ctx, H, jobs, 'chase', classify=classify)
+    if tie and not ctx['V'].violations:
+        # the model and the code disagree (e.g. on a memory order) and SC interleavings show no failure: look for a failing
+        # execution among the weak executions the C++ model permits (the machine of C03)
+        wj = []
+        for prog in ([['push 1', 'push 2', 'pop', 'pop'], ['steal', 'steal']], [['push 1', 'push 2', 'push 3', 'pop', 'pop'], ['steal', 'steal'], ['steal']], [['push 1', 'pop', 'push 2', 'pop'], ['steal'], ['steal']]):
+            for c in ('fixed', 'growing'):
+                wj.append(({'container': c, 'capacity': '4', 'weak': '16'}, prog, 'random', 1500, ctx['seed'], ()))
+                wj.append(({'container': c, 'capacity': '4', 'weak': '16'}, prog, 'pct', 800, ctx['seed'], ('--depth', '3')))
+        do_search(ctx, H, wj, 'chase-weak', classify=classify)
     return tie
 
 def replay(sig, V, wd):
